@@ -190,9 +190,13 @@ def _job(job):
                 ev.append({"e": "rename", "a": e["a"], "name": e["name"], "stage": e["stage"], "hv": False, "res": e["res"]})
         ids = tr.ids
         bio = r["bio"]
-        alive = [ids.get(id(a), 0) for a in bio.atoms]
+        # the final model = the atoms of its residues (the flat atom list must agree with it, see below)
+        alive = [ids.get(id(a), 0) for rr in bio.residues for a in rr.atoms]
         matched, missing = getattr(tr, "ff_lists", ([], []))
         rendered = getattr(tr, "rendered", None) or []
+        if "--clean" in job["args"]:
+            # no force field: every atom of the flat list is written as it is
+            matched, missing, rendered = list(bio.atoms), [], list(bio.atoms)
         lines = [ln for ln in open(out).read().split("\n") if ln.startswith(("ATOM", "HETATM"))]
         written = [ids.get(id(a), 0) for a in rendered]
         ok_lines = len(lines) == len(rendered) and all(ln[12:16].strip() == a.name[:4] for ln, a in zip(lines, rendered))
@@ -304,13 +308,13 @@ def run(ctx):
         elif kind == "LOST":
             ctx.violation({"clause": "InputHeavyOnceOrReported", "name": v[3]}, f"{t['what']}: input heavy atom {v[3]} (id {v[2]}) vanished unreported",
                           {"what": t["what"]})
-        elif kind in ("DUPNAME", "TEMP", "TOPOLOGY"):
+        elif kind in ("DUPNAME", "TEMP", "TOPOLOGY", "SURPLUS"):
             k = v[2]
             rr = t["fin"]["residues"][k - 1]
             have = sorted(t["names"].get(str(i), t["names"].get(i, "?")) for i in rr["ids"])
             extra_ = sorted(set(have) - set(rr["want"]))
             miss_ = sorted(set(rr["want"]) - set(have))
-            clause = {"DUPNAME": "NamesUnique", "TEMP": "NoPlaceholderAtoms", "TOPOLOGY": "TopologyExact"}[kind]
+            clause = {"DUPNAME": "NamesUnique", "TEMP": "NoPlaceholderAtoms", "TOPOLOGY": "TopologyExact", "SURPLUS": "NothingBeyondTopology"}[kind]
             ctx.violation({"clause": clause, "residue": t["labels"][k - 1].split()[0], "extra": "+".join(extra_) if kind != "DUPNAME" else None,
                            "missing": "+".join(miss_) if kind == "TOPOLOGY" else None},
                           f"{t['what']}: residue {t['labels'][k-1]} has {have}; topology {rr['want']}", {"what": t["what"], "residue": t["labels"][k - 1]})
